@@ -1,7 +1,7 @@
 CHECK = dict(
     level='model_checking',
     parts=[dict(name='c09', src=['harness/c09_list.c'], lib=['list.c'], workers=16,
-                deadline=dict(quick=120, thorough=900))],
+                deadline=dict(quick=300, thorough=1800))],
     rule='explicit-state BFS to a fixpoint over (2 lists, node pool with duplicate keys, one iterator per list) driving '
          'the real list.c; every transition = one list operation applied to the implementation and to an array model, '
          'followed by a full traversal comparison; a state is distinct when its raw image (list heads, stale tails, node '
